@@ -48,6 +48,11 @@ CLAIMS = {
  "C16": ("Partly, graph half only: DAG::reorder_nodes - the only place in the anchored code that iterates an unordered container - gives the same add_edge "
          "result and the same topological order whichever of six iteration orders the two HashSets are yielded in (all orders for sets of <= 3 elements), "
          "for every reordering add_edge from 4 (quick) / 8 (thorough) pre-states. Equality of whole event streams across replays is outside the claim.", "§4 C16"),
+ "C20": ("Bounded, session level (top-down only): three well-formed scripted programs whose tasks change roles with the parity of one cell (which task writes a "
+         "generated cell, which task reads it, which of two tasks requires the other) are run through real top-down sessions across a role flip, in the orders in which the "
+         "former role-holder is re-validated before the new one acts, also when the re-execution is caused by a failing dependency check: no build aborts and outputs equal a "
+         "from-scratch evaluation. The three orders in which pie does abort although the current state contains no violation are recorded findings (known_findings.json: C20-KF1..3), "
+         "each reported as KNOWN-FINDING only after it reproduces natively with the listed panic message. Bottom-up builds, other programs and longer histories are outside the claim.", "§4 C20"),
  "C14": ("Partly, unit level: for the map resource, stamp/stamp_reader/stamp_writer agree with the stored value or absence and MapEqualsChecker is "
          "consistent exactly when the current value or absence equals the stamped one, after writes through a writer and directly through the "
          "resource state; per-resource-type state slots do not alias (also with a shared state type) and a non-matching state type is replaced for that resource type only. "
@@ -57,7 +62,6 @@ NA = {
  "C03": "needs a whole bottom-up build; a task object taken out of the store (trait object inside an enum variant) is not constant-folded by Kani/CBMC, so executing it bottom-up explores every task program and merges (measured, DESIGN §2, §6)",
  "C13": "file checkers are thin layers over filesystem syscalls, SystemTime and SHA-256 over file content: not encodable (FFI) / textbook weak target (DESIGN §6)",
  "C19": "needs execution to continue after a panic; Kani models panic as abort and has no catch_unwind (DESIGN §6)",
- "C20": "needs histories in which tasks change roles; the two role-inversion patterns that the property text itself calls recorded findings are not enumerated there, so a check could not tell a finding from a violation (DESIGN §6)",
 }
 NOT_BUILT = "check not built yet in this round (see DESIGN.md §4 for the plan)"
 ALL = ["C%02d" % i for i in range(1, 21)]
